@@ -15,7 +15,8 @@ INFO = {
                    'stated shape, the output header has exactly as many names as every output record has fields and each name follows the rule: alias for AS; source column '
                    'name for aN, a[N], a.name, a["name"] and star expansions; the identifier for bare variables (NR); colK (K = output position) otherwise; no header in and '
                    'no alias => no header out.  The DISTINCT COUNT multiplicity column is only counted (its name is not documented).',
-    'bounds': 'headers of 2-3 names, symbolic names len <= 2; tables 2 rows, cells str len <= 1; select lists of 1-5 items incl. nested brackets / commas inside calls and literals',
+    'bounds': 'headers of 2-3 names, symbolic names len <= 2; tables 2 rows, cells str len <= 1; select lists of 1-5 items incl. nested brackets / commas inside calls and literals'
+        '; bare identifiers that only start like aN / bN (directly mapped column names, user-init variables): 6 concrete queries over symbolic 1-character cells',
     'outside': 'symbolic select-list text; pandas DataframeWriter (C extension); JS twin (text-span based) -- see C18 for the header kernel',
     'assumptions': ['CrossHair models of str/list/re faithful to CPython'],
     'trusted': ['crosshair-tool 0.0.110', 'z3', 'CPython 3.12.1 ast module (concrete input)'],
